@@ -188,7 +188,7 @@ Example model_run_passes :
   report [ model_case 3 [OSpawn 0; OSpawnChild 0 2; OBlock 0; OSend 0 11; OSpawn 0; OSpawn 2; OSend 0 12; ORelease 0;
                          OSpawnChild 0 2; OStopBegin 0 2; OSpawn 0; OGet 2; OStopEnd 0 2; OSend 0 13;
                          OSpawn 0; OSend 0 14; OSpawn 2; OSpawnChild 0 2; OStop 0] ]
-  = ([], [], [[4; 8; 10; 15; 1; 6; 9; 3; 2; 5; 12]]).
+  = ([], [], [[4; 8; 10; 15; 1; 6; 9; 3; 2; 5]]).
 Proof. vm_compute. reflexivity. Qed.
 
 (* what a removal before Stopped looks like: during the held shutdown the id is
